@@ -2,8 +2,11 @@ package c06
 
 import (
 	"fmt"
+	"runtime"
 	"sort"
+	"strings"
 	"sync"
+	"sync/atomic"
 	"testing"
 	"time"
 
@@ -319,7 +322,7 @@ func posOfVoteproof(vp base.Voteproof) pos {
 func TestC06(t *testing.T) {
 	r := vlib.Start(t, "C06", vlib.LevelExploration)
 	defer r.Finish()
-	r.SetRule("case = one attempted update (current position, candidate) at one of four boundaries: pure LastPoint.Before/IsNewBallot, pure IsNewVoteproofbyPoint, a real Ballotbox.SetLastPoint, a real LastVoteproofsHandler.Set with real voteproof objects (position = Last().Cap()); positions (height in 33..35, round 0..2, INIT/ACCEPT, majority, suffrage-confirm for INIT); all histories of accepted updates up to the stated depth from every start incl. the zero point, plus random walks; distinct = (boundary, current, candidate, accepted)")
+	r.SetRule("case = one attempted update (current position, candidate) at one of four boundaries: pure LastPoint.Before/IsNewBallot, pure IsNewVoteproofbyPoint, a real Ballotbox.SetLastPoint, a real LastVoteproofsHandler.Set with real voteproof objects (position = Last().Cap()); positions (height in 33..35, round 0..2, INIT/ACCEPT, majority, suffrage-confirm for INIT); all histories of accepted updates up to the stated depth from every start incl. the zero point, plus random walks; concurrent phase: 8 goroutines Set real voteproofs / SetLastPoint of 8 heights on one handler / box while they and 2 observers sample the position (height never decreases per goroutine, no step back without a suffrage-confirm update, final height = greatest offered); distinct = (boundary, current, candidate, accepted)")
 	r.Assume("LastVoteproofsHandler.ForceSetLast is a deliberate override and is not driven")
 	r.Assume("a suffrage-confirm candidate always has stage INIT (NewLastPoint refuses anything else; suffrage-confirm facts are INIT facts)")
 	r.Assume("LastVoteproofsHandler.Set returning true for a voteproof that only fills a missing slot (fillMissing, e.g. the previous height's ACCEPT) is not an accepted position: the position judged against is Last().Cap(); rejection of a lower height = IsNew false and Cap unchanged")
@@ -617,6 +620,206 @@ func TestC06(t *testing.T) {
 	})
 
 	lap("store-random")
+	// ---- (4) concurrent use ----------------------------------------------
+	// Both stores carry their own lock and are called from several goroutines
+	// of a running node, so the statement must also hold for concurrent
+	// updates: whatever the interleaving, every goroutine sees the height of
+	// the position never decrease; without suffrage-confirm updates in play
+	// the stage point never moves back either; and when all updates are done
+	// the position has the greatest height that was offered.
+	type cfind struct {
+		sig, what string
+		wit       any
+	}
+	var cmu sync.Mutex
+	cfinds := map[string]cfind{}
+	report := func(sig, what string, wit any) {
+		cmu.Lock()
+		if _, ok := cfinds[sig]; !ok {
+			cfinds[sig] = cfind{sig, what, wit}
+		}
+		cmu.Unlock()
+	}
+	// monotone watches one goroutine's samples of a position
+	type monotone struct {
+		form   string
+		withSC bool
+		last   pos
+		trace  []string
+		n      int
+	}
+	watch := func(m *monotone, now pos) {
+		m.n++
+		if now == m.last {
+			return
+		}
+		if len(m.trace) < 40 {
+			m.trace = append(m.trace, now.String())
+		}
+		if !m.last.isZero() {
+			switch {
+			case now.isZero():
+				report(m.form+":concurrent:position-lost", fmt.Sprintf("%s: position %s then empty", m.form, m.last), append([]string{}, m.trace...))
+			case now.H < m.last.H:
+				report(m.form+":concurrent:height-decreased", fmt.Sprintf("%s: one goroutine saw the position at %s and later at %s", m.form, m.last, now), append([]string{}, m.trace...))
+			case !m.withSC && cmpSP(now, m.last) < 0:
+				report(m.form+":concurrent:moved-back-without-suffrage-confirm", fmt.Sprintf("%s: one goroutine saw the position at %s and later at %s; no suffrage-confirm update exists in this run", m.form, m.last, now), append([]string{}, m.trace...))
+			}
+		}
+		m.last = now
+	}
+	var cdom []pos // positions offered concurrently: 8 heights
+	for h := int64(34); h <= 41; h++ {
+		for _, rd := range []uint64{0, 1} {
+			for _, maj := range []bool{true, false} {
+				cdom = append(cdom, pos{H: h, R: rd, Maj: maj}, pos{H: h, R: rd, A: true, Maj: maj})
+				if maj {
+					cdom = append(cdom, pos{H: h, R: rd, Maj: true, SC: true})
+				}
+			}
+		}
+	}
+	cvps := make([]base.Voteproof, len(cdom))
+	for i := range cdom {
+		cvps[i] = newVoteproof(cdom[i])
+	}
+	startVP := newVoteproof(pos{H: 33, R: 0, Maj: true})
+	trials := r.N(20000, 200000)
+	const setters = 8
+	var samplesSeen, setsDone int64
+	var smu sync.Mutex
+	inter := map[string]struct{}{}
+	runTrial := func(form string, ti int) {
+		rng := r.Rand(6, ti)
+		withSC := ti%3 == 2
+		// what each setter offers: trial kinds: one voteproof each (a ladder of
+		// heights), or a few each
+		per := 1 + (ti%4)/2*2
+		var offers [setters][]int
+		maxH := int64(33)
+		for g := 0; g < setters; g++ {
+			for k := 0; k < per; k++ {
+				var idx int
+				for {
+					idx = rng.Intn(len(cdom))
+					if withSC || !cdom[idx].SC {
+						break
+					}
+				}
+				if ti%2 == 0 && k == 0 { // distinct heights, one per setter
+					for cdom[idx].H != int64(34+g) || (!withSC && cdom[idx].SC) {
+						idx = rng.Intn(len(cdom))
+					}
+				}
+				offers[g] = append(offers[g], idx)
+				if cdom[idx].H > maxH {
+					maxH = cdom[idx].H
+				}
+			}
+		}
+		var h *isaac.LastVoteproofsHandler
+		var box *isaacstates.Ballotbox
+		read := func() pos { return posOfVoteproof(h.Last().Cap()) }
+		if form == hForm {
+			h = isaac.NewLastVoteproofsHandler()
+			h.Set(startVP)
+		} else {
+			box = newBox()
+			box.SetLastPoint(lastPoint(pos{H: 33, R: 0, Maj: true}))
+			read = func() pos { return fromLastPoint(box.LastPoint()) }
+		}
+		var wg sync.WaitGroup
+		start := make(chan struct{})
+		var done int32
+		mons := make([]*monotone, setters+2)
+		for g := 0; g < setters; g++ {
+			mons[g] = &monotone{form: form, withSC: withSC}
+			wg.Add(1)
+			go func(g int) {
+				defer wg.Done()
+				m := mons[g]
+				<-start
+				for _, idx := range offers[g] {
+					watch(m, read())
+					if h != nil {
+						h.Set(cvps[idx])
+					} else {
+						box.SetLastPoint(lastPoint(cdom[idx]))
+					}
+					watch(m, read())
+				}
+			}(g)
+		}
+		var owg sync.WaitGroup
+		for o := 0; o < 2; o++ {
+			mons[setters+o] = &monotone{form: form, withSC: withSC}
+			owg.Add(1)
+			go func(m *monotone) {
+				defer owg.Done()
+				<-start
+				for atomic.LoadInt32(&done) == 0 {
+					watch(m, read())
+					runtime.Gosched()
+				}
+				watch(m, read())
+			}(mons[setters+o])
+		}
+		close(start)
+		wg.Wait()
+		atomic.StoreInt32(&done, 1)
+		owg.Wait()
+		final := read()
+		if final.H != maxH {
+			var offered []string
+			for g := range offers {
+				for _, idx := range offers[g] {
+					offered = append(offered, cdom[idx].String())
+				}
+			}
+			report(form+":concurrent:final-height-below-greatest-offered", fmt.Sprintf("%s: after %d concurrent updates finished the position is %s, greatest height offered %d", form, setters*per, final, maxH), map[string]any{"offered_by_8_goroutines": offered, "final": final.String()})
+		}
+		var ns int
+		for _, m := range mons {
+			ns += m.n
+		}
+		atomic.AddInt64(&samplesSeen, int64(ns))
+		atomic.AddInt64(&setsDone, int64(setters*per))
+		smu.Lock()
+		if len(inter) < 200000 {
+			inter[form+"|"+strings.Join(mons[setters].trace, ">")] = struct{}{}
+		}
+		smu.Unlock()
+	}
+	okc := r.WithWatchdog(10*time.Minute, "concurrent-updates", func() {
+		vlib.Parallel(trials, 4, func(ti int) {
+			r.Guard(hForm+":concurrent", ti, func() { runTrial(hForm, ti) })
+		})
+		// a Ballotbox costs ~1 MB to build: fewer trials
+		vlib.Parallel(trials/10, 4, func(ti int) {
+			r.Guard(boxForm+":concurrent", ti, func() { runTrial(boxForm, ti) })
+		})
+	})
+	if !okc {
+		return
+	}
+	r.Eval(int(setsDone))
+	r.Count("concurrent_trials", trials+trials/10)
+	r.Count("concurrent_updates", int(setsDone))
+	r.Count("concurrent_position_samples", int(samplesSeen))
+	for k := range inter {
+		r.SetAdd("interleavings_seen", k)
+	}
+	{
+		ks := make([]string, 0, len(cfinds))
+		for k := range cfinds {
+			ks = append(ks, k)
+		}
+		sort.Strings(ks)
+		for _, k := range ks {
+			r.Violation(cfinds[k].sig, cfinds[k].what, cfinds[k].wit)
+		}
+	}
+	lap("concurrent")
 	// ---- report -----------------------------------------------------------
 	sigs := make([]string, 0, len(all))
 	for s := range all {
